@@ -51,6 +51,19 @@ def rule_make_up_bounds(check, rule):
                 problems.append('positional prefixes range over %s, expected 0..len(names) inclusive' % show(src)[:60])
         else:
             unknown_pref = True
+        # ... over the list that already holds the made-up surplus names (`extra`): the loop appending them must come before
+        # the prefixes are taken, or no call with surplus positionals is ever generated
+        if names is not None:
+            extra_p = [('P', x) for x in (fi.params()[0] + fi.params()[2]) if x == 'extra']
+            made_args = [i for i, e in enumerate(p.effects) if e.kind == 'new' and e.target == args_l]
+            extra_loops = [i for i, e in enumerate(p.effects) if e.kind == 'loop' and e.target[0] == 'C' and e.target[1] == 'range'
+                           and extra_p and extra_p[0] in e.target[2]
+                           and any(x.kind == 'mut' and x.target == names and x.op in ('append', 'extend', 'insert') for sp in e.sub for x in sp.effects)]
+            if extra_p and made_args and extra_loops and made_args[0] < extra_loops[0]:
+                problems.append('the positional prefixes are taken before the made-up surplus names (extra) are appended to the list: no call with '
+                                'more positionals than parameters is generated')
+            elif extra_p and made_args and not extra_loops:
+                problems.append('the made-up surplus names (extra) are never appended to the list the positional prefixes are taken from')
         # keyword subsets: combinations(names, i) for i in range(len(names) + 1)
         rng = None
         if gk is not None:
